@@ -1,0 +1,23 @@
+package trie
+
+import (
+	"reflect"
+	"unsafe"
+
+	"github.com/openacid/low/bitstr"
+)
+
+// strCmpUpto compares string `s`, truncated upto the length of bitStr `b`, with `b`.
+//
+// It is bitstr.StrCmpUpto with a well-formed slice header: bitstr.StrCmpUpto
+// casts a *string to a *[]byte and thus reads a slice capacity that does not
+// exist.
+func strCmpUpto(s string, b []byte) int {
+	var a []byte
+	sh := (*reflect.StringHeader)(unsafe.Pointer(&s))
+	bh := (*reflect.SliceHeader)(unsafe.Pointer(&a))
+	bh.Data = sh.Data
+	bh.Len = sh.Len
+	bh.Cap = sh.Len
+	return bitstr.CmpUpto(a, b)
+}
